@@ -11,8 +11,10 @@ CFGS = {
 }
 S128 = "src/skinny128-cipher.c"; S64 = "src/skinny64-cipher.c"; MAN = "src/mantis-cipher.c"
 
+OPAQUE = ("permute_tk", "mantis_update_tweak", "mantis_shift_rows", "mantis_mix_columns", "mantis_unpack", "mantis_swap_modes", "mantis_set_key", "inc_counter")
 def e(file, func, lean, flags=[], lane=None, params=None, lane_proof=None):
     d = {"file": file, "func": func, "lean": lean, "flags": flags}
+    if any(k in func for k in OPAQUE): d["opaque"] = True
     if lane: d["lane"] = lane
     if params: d["params"] = params
     if lane_proof: d["lane_proof"] = lane_proof
